@@ -2,7 +2,7 @@
 import os, re, shutil
 import cas_script, common, extract, libgen, oracle_lib, mpirun, synthlib
 
-LEAN_MODULE = ["ESRVerif.Props.C03", "ESRVerif.Props.C03b"]
+LEAN_MODULE = ["ESRVerif.Props.C03", "ESRVerif.Props.C03b", "ESRVerif.Props.C03c"]
 LEVEL = "other"
 LEVEL_TEXT = ("Partial proof. Proved in Lean for libraries of any size: first-occurrence indexing gives a duplicate-free unique list and a total match "
               "that points at the function's own string; get_match_indexes finds the first occurrence of every rewritten tree's original; the chain "
@@ -222,6 +222,87 @@ def _corr_driver_frozen(ctx, n):
     return stats
 
 
+RANKS_WORKER = os.path.join(common.HARNESS, "workers", "c03_script_ranks.py")
+
+
+def _launch_ranks(ctx, scripts, P, tag):
+    """the worker on P ranks over `scripts` -> (mpirun result, per-rank records or None)"""
+    import json
+    d = os.path.join(ctx.tmp, "c03_ranks", tag)
+    shutil.rmtree(d, ignore_errors=True)
+    os.makedirs(d)
+    jf = os.path.join(d, "scripts.json")
+    json.dump(scripts, open(jf, "w"))
+    pre = os.path.join(d, "out")
+    r = mpirun.run(P, [RANKS_WORKER, jf, os.path.join(d, "w"), pre], timeout=600, env_extra=ctx.env(), cwd=ctx.stage, python=common.PY)
+    outs = []
+    for q in range(P):
+        try:
+            outs.append(json.load(open("%s.%d.json" % (pre, q))))
+        except Exception:
+            outs.append(None)
+    shutil.rmtree(r.get("tmp", ""), ignore_errors=True)
+    shutil.rmtree(os.path.join(d, "w"), ignore_errors=True)
+    return r, outs
+
+
+def _corr_driver_ranks(ctx, n):
+    """The REAL duplicate_checker.main + do_sympy + make_changes on P ranks (P in 1, 2, 3, 5 and one P above the number of
+    functions) under the block-wise scripted CAS, against `dupMainRanks P` of the model AND against the P = 1 model
+    (Props/C03c: doSympyRanks_eq_doSympy, library_files_rank_independent); every rank must return the same strings and round
+    count; C03's statement is recomputed on the files of every run."""
+    import random
+    from concurrent.futures import ThreadPoolExecutor
+    scripts = [cas_script.make_script(random.Random(ctx.rng.getrandbits(48))) for _ in range(n)]
+    small = [k for k, sc in enumerate(scripts) if len(sc["gen"]) <= 6]
+    pbig = 1 + max([len(scripts[k]["gen"]) for k in small] + [1])
+    plan = [(1, list(range(n))), (2, list(range(n))), (3, list(range(n))), (5, list(range(n))), (pbig, small)]
+    plan = [(P, ks) for j, (P, ks) in enumerate(plan) if ks and P not in [q for q, _ in plan[:j]]]
+    stats = dict(scripts=n, ranks=[P for P, _ in plan], runs=0, mismatches=0, mismatch_vs_one_rank_model=0, property_failures=0, incomplete=0,
+                 ranks_disagree=0, surplus_rank_calls=0, empty_block_calls=0, calls=0, merges=0, rows_with_chain=0)
+    with ThreadPoolExecutor(len(plan)) as ex:
+        res = list(ex.map(lambda pk: _launch_ranks(ctx, [scripts[k] for k in pk[1]], pk[0], "P%d" % pk[0]), plan))
+    ops, want = [], []
+    for (P, ks), (r, outs) in zip(plan, res):
+        if not r["ok"] or any(o is None for o in outs):
+            stats["incomplete"] += 1
+            ctx.disagree("corr:do_sympy-ranks", "the scripted run of %d libraries on %d ranks did not complete: %s %s" % (len(ks), P, r.get("error"), r.get("exit_codes")))
+            continue
+        for j, k in enumerate(ks):
+            sc, rec = scripts[k], outs[0][j]
+            stats["runs"] += 1
+            for kind, detail in rec["bad"][:1]:
+                stats["property_failures"] += 1
+                if stats["property_failures"] <= 6:
+                    ctx.fail("scripted-cas-ranks:%s" % kind, "real duplicate_checker.main/do_sympy/make_changes on %d ranks under a sound per-item scripted CAS "
+                             "left an unsound library: %s; functions %r, round tables %r" % (P, detail, sc["gen"], sc["tables"]), dict(kind="script_ranks", script=sc, P=P))
+            if any(o[j]["odd"] for o in outs) or not rec["format_ok"] or rec["stray"]:
+                ctx.disagree("corr:do_sympy-ranks", "P=%d: sympy object passed with the wrong string, or a round file not in csv format / beyond the returned count" % P)
+            if any(o[j]["ret"] != rec["ret"] or o[j]["raised"] != rec["raised"] for o in outs[1:]):
+                stats["ranks_disagree"] += 1
+                ctx.disagree("corr:do_sympy-ranks", "P=%d [script seed %d]: the ranks return different strings / round counts: %r" % (P, sc["seed"], [o[j]["ret"] for o in outs][:3]))
+            for q, o in enumerate(outs):
+                stats["calls"] += len(o[j]["blocks"])
+                stats["empty_block_calls"] += sum(1 for b in o[j]["blocks"] if b == 0)
+            stats["surplus_rank_calls"] += sum(1 for b in outs[-1][j]["blocks"] if b == 0) if P > 1 else 0
+            ml = cas_script.model_line(sc, rec["nuniq"])[len("lib-main "):]
+            ops.append("lib-main-ranks %d %s" % (P, ml)); want.append((P, sc, rec["line"], "model on %d ranks" % P))
+            ops.append("lib-main-ranks 1 %s" % ml); want.append((P, sc, rec["line"], "one-rank model"))
+            if rec["line"].startswith("ok "):
+                f = dict(x.split("=", 1) for x in rec["line"].split(" ")[1:])
+                stats["merges"] += len(set(f["alleq"].split(","))) - len(f["uniq"].split(","))
+                stats["rows_with_chain"] += sum(1 for x in f["inv"].split(";") if x not in ("E", "_"))
+                ctx.case(("script-ranks", k, P, ctx.seed), nontrivial=P >= 2 and f["inv"].strip("E;_") != "", n=len(sc["gen"]))
+    outm = common.model(ops) if ops else []
+    for (P, sc, a, what), b in zip(want, outm):
+        if a != b:
+            stats["mismatches"] += 1
+            stats["mismatch_vs_one_rank_model"] += what == "one-rank model"
+            if stats["mismatches"] <= 6:
+                ctx.disagree("corr:do_sympy-ranks", "real run on %d ranks vs %s: %s [script seed %d, %d functions]" % (P, what, cas_script.first_difference(a, b), sc["seed"], len(sc["gen"])))
+    return stats
+
+
 def _lib_rows(ctx, runname, nmax, P=1, basis=None, tag=""):
     r = libgen.generate(ctx, runname, list(range(1, nmax + 1)), P=P, basis=basis, copy="c03_%s%s_P%d" % (runname, tag, P), timeout=1500)
     rp = dict(kind="library", runname=runname, nmax=nmax, P=P, basis=basis)
@@ -246,9 +327,10 @@ def run(ctx):
     ctx.extra["source_drift"] = drift
     n, b = _corr_index(ctx, 3000 if deep else 600)
     drv = _corr_driver(ctx, 5000 if deep else 320)
-    ctx.extra["corr_obligations"] = 2
-    ctx.extra["corr_discharged"] = int(b == 0) + int(drv["mismatches"] == 0)
-    ctx.extra["correspondence"] = dict(index_ops=n, mismatches=b, do_sympy_driver=drv)
+    rk = _corr_driver_ranks(ctx, 400 if deep else 40)
+    ctx.extra["corr_obligations"] = 3
+    ctx.extra["corr_discharged"] = int(b == 0) + int(drv["mismatches"] == 0) + int(rk["mismatches"] == 0 and rk["incomplete"] == 0 and rk["ranks_disagree"] == 0)
+    ctx.extra["correspondence"] = dict(index_ops=n, mismatches=b, do_sympy_driver=drv, do_sympy_driver_ranks=rk)
     # the driver already fails on concrete inputs: the verdict is fixed, and generating real libraries with a broken driver
     # can take hours (chains growing without bound make check_results crawl) - stop here
     kf = common.known_findings(ctx.pid)
@@ -280,6 +362,14 @@ def replay(ctx, data):
         for kind, detail in bad:
             print("%s: %s" % (kind, detail))
         return not bad
+    if rp.get("kind") == "script_ranks":
+        r, outs = _launch_ranks(ctx, [rp["script"]], rp["P"], "replay")
+        if not r["ok"] or outs[0] is None:
+            print("the run on %d ranks did not complete: %s" % (rp["P"], r.get("error")))
+            return False
+        for kind, detail in outs[0][0]["bad"]:
+            print("%s: %s" % (kind, detail))
+        return not outs[0][0]["bad"]
     if rp.get("kind") == "check_results":
         import props.c13 as c13
         return c13.replay(ctx, data)
